@@ -114,6 +114,7 @@ pub fn match_input(
                 }
 
                 if ligbase == Ligbase::MayNotSkip {
+                    *end_position = iter.index() + 1;
                     return false;
                 }
             }
@@ -122,6 +123,7 @@ pub fn match_input(
             // all subsequent components should also NOT be attached to any ligature
             // component, unless they are attached to the first component itself!
             if this_lig_id != 0 && this_lig_comp != 0 && (this_lig_id != first_lig_id) {
+                *end_position = iter.index() + 1;
                 return false;
             }
         }
